@@ -281,6 +281,14 @@ def run_unit(unit, rng, ctx):
     names = ['Li'] * nLi + sys_.species_names[nA:]
     traj = gen.make_trajectory(m, gen.species_objects(names, rng=rng), coords, time_step=sys_.time_step)
     sites = sys_.sites_structure()
+    if unit['i'] % 3 == 0:
+        # the site set comes from a reference structure whose cell differs from the simulation cell
+        # (same fractional coordinates); distances are those of the SIMULATION cell
+        from pymatgen.core import Lattice, Structure
+
+        fac = float(rng.choice([0.9, 1.04, 1.5]))
+        sites = Structure(lattice=Lattice(m * fac), species=['Li'] * S, coords=sys_.site_frac, labels=list(sys_.labels))
+        ctx.count('sites_given_in_a_different_cell')
     what = f'{sys_.kind}{"/rot" if sys_.rotated else ""} mode={mode} f={f} sites={S} labels={sys_.labels}'
     wit = {'matrix': m, 'site_frac': sys_.site_frac, 'labels': sys_.labels, 'site_radius': arg, 'inner_fraction': f}
     _seen['radius'] = None
